@@ -293,7 +293,7 @@ func runC07(c *fw.Ctx) {
 	c.Cases("pinned", len(pins), true, func(i int, r *rng.R) {
 		c07Pair(c, r, pins[i][0], pins[i][1], "pinned")
 	})
-	c.Cases("pairs", c.N(5000, 300000), false, func(i int, r *rng.R) {
+	c.Cases("pairs", c.N(5000, 3000000), false, func(i int, r *rng.R) {
 		root := spec.List
 		if r.Bool() {
 			root = spec.Obj
@@ -304,7 +304,7 @@ func runC07(c *fw.Ctx) {
 		c07Pair(c, r, a, b, desc)
 	})
 	// triples from a small pool: equal triples are frequent, so transitivity is exercised
-	c.Cases("triples", c.N(1000, 50000), false, func(i int, r *rng.R) {
+	c.Cases("triples", c.N(1000, 500000), false, func(i int, r *rng.R) {
 		root := spec.List
 		if r.Bool() {
 			root = spec.Obj
